@@ -6,7 +6,7 @@ from props.m1common import rng_for, is_err
 import sx
 
 PID = "C20"
-KERNELS = ['K_scale', 'K_lazy_wrapper']   # translated from /repo on every run, tied to the model by coq/Gen/<name>_eq.v
+KERNELS = ['K_scale', 'K_lazy_wrapper', 'K_tools']   # translated from /repo on every run, tied to the model by coq/Gen/<name>_eq.v
 RUNNER = "impl_m6.py"
 N = {"quick": 3000, "thorough": 100000}
 VM_CROSSCHECK = True
